@@ -389,6 +389,8 @@ String Date::toString(Date::Format fmt, bool utc) const
 		break;
 	case HTTP:
 	{
+		if (!utc) // an HTTP date is in GMT by definition
+			return toString(HTTP, true);
 		const char* wd[] = { "Sun", "Mon", "Tue", "Wed", "Thu", "Fri", "Sat" };
 		const char* mn[] = { "Jan", "Feb", "Mar", "Apr", "May", "Jun", "Jul", "Aug", "Sep", "Oct", "Nov", "Dec" };
 		return String::f("%s, %02i %s %04i %02i:%02i:%02i GMT", wd[d.weekDay], d.day, mn[d.month - 1], d.year, d.hours, d.minutes,
